@@ -103,8 +103,8 @@ pub open spec fn maybe_ok<W: Write + io::Seek>(m: MaybeEncrypted<W>) -> bool { m
 pub open spec fn zw_wf<W: Write + io::Seek>(w: &ZipWriter<W>) -> bool {
     &&& files_ok(w.files@)
     &&& (w.writing_to_file ==> w.files@.len() > 0)
-    &&& (w.writing_to_extra_field ==> w.writing_to_file && !w.writing_raw && (gzw_plain(w.inner) || w.inner is Closed)
-            && w.files@.last().header_start + 30 <= MAX_OFF)
+    &&& (w.writing_to_extra_field ==> w.writing_to_file && !w.writing_raw && w.files@.last().header_start + 30 <= MAX_OFF)
+    &&& (w.writing_to_extra_field && !w.writing_to_central_extra_field_only ==> (gzw_plain(w.inner) || w.inner is Closed))
     // while local extra data is being collected over an unfaulted sink, the sink has not moved back behind the
     // recorded data start (it is parked there; only Write operations, which advance, can reach it meanwhile)
     &&& (w.writing_to_extra_field && !w.writing_to_central_extra_field_only && gzw_plain(w.inner) && !zw_faulted(w)
@@ -117,7 +117,8 @@ pub open spec fn zw_wf<W: Write + io::Seek>(w: &ZipWriter<W>) -> bool {
 // extra field.  Without a fault it follows from zw_wf (data start == sink position <= 2^63).  After such a fault
 // every failed retry may add up to 65535, so 2^47 retries would be needed to exhaust it: stated, not proved.
 pub open spec fn zw_room<W: Write + io::Seek>(w: &ZipWriter<W>) -> bool {
-    w.writing_to_extra_field && w.files@.len() > 0 ==> w.files@.last().data_start.0.g_val() <= 0xFFFF_FFFF_FFFF_0000
+    w.writing_to_extra_field && !w.writing_to_central_extra_field_only && w.files@.len() > 0
+        ==> w.files@.last().data_start.0.g_val() <= 0xFFFF_FFFF_FFFF_0000
 }
 
 //@impl src/write.rs | impl<W: Write + io::Seek> ZipWriter<W>
@@ -127,10 +128,37 @@ impl<W: Write + io::Seek> ZipWriter<W> {
 //@use zw_finish_file
 //@use zw_end_extra_data
 //@use zw_start_entry
+//@use zw_start_file
+//@use zw_add_directory
+//@use zw_start_file_with_extra_data
+//@use zw_end_local_start_central_extra_data
+//@use zw_start_file_aligned
+//@use zw_add_symlink
 }
+// C17: the padding formula of start_file_aligned lands on a multiple of the alignment
+pub proof fn lemma_align(x: int, a: int)
+    requires a > 0, x >= 0
+    ensures (x + (a - x % a) % a) % a == 0
+{
+    let r = x % a;
+    vstd::arithmetic::div_mod::lemma_fundamental_div_mod(x, a);
+    vstd::arithmetic::div_mod::lemma_mod_bound(x, a);
+    if r == 0 {
+        vstd::arithmetic::div_mod::lemma_mod_self_0(a);
+        assert((a - r) % a == 0);
+    } else {
+        vstd::arithmetic::div_mod::lemma_small_mod((a - r) as nat, a as nat);
+        assert((a - r) % a == a - r);
+        // x + a - r = a * (x / a) + a = a * (x/a + 1)
+        assert(x + (a - r) == a * (x / a + 1)) by(nonlinear_arith) requires x == a * (x / a) + r;
+        vstd::arithmetic::div_mod::lemma_mod_multiples_basic(x / a + 1, a);
+        assert((a * (x / a + 1)) % a == 0) by { vstd::arithmetic::mul::lemma_mul_is_commutative(a, x / a + 1); }
+    }
+}
+
 // ZipWriter itself is a Write adapter: usable while its representation invariant holds
 pub open spec fn zw_ready<W: Write + io::Seek>(w: &ZipWriter<W>) -> bool {
-    zw_wf(w) && zw_room(w) && w.stats.bytes_written <= 0x7fff_ffff_ffff_ffff
+    zw_wf(w) && w.stats.bytes_written <= 0x7fff_ffff_ffff_ffff
 }
 impl<W: Write + io::Seek> Dev for ZipWriter<W> {
     open spec fn g_ready(&self) -> bool { zw_ready(self) }
@@ -144,6 +172,48 @@ impl<W: Write + io::Seek> Write for ZipWriter<W> {
 //@use zw_write
 //@use zw_flush
 }
+// T7x in start_file_aligned / add_symlink: `self.write_all(..)` / `self.write_u16::<LittleEndian>(..)` on the ZipWriter itself.
+// ASSUMED: std's write_all is repeated `write`; the effect below is what ZipWriter::write (proved: zw_write) gives
+// when every call accepts what that contract says it accepts.
+#[verifier::external_body]
+fn shim_zw_write_all<W: Write + io::Seek>(w: &mut ZipWriter<W>, buf: &[u8]) -> (r: io::Result<()>)
+    requires zw_ready(old(w)),
+    ensures
+        zw_wf(final(w)) && (zw_room(final(w)) || zw_faulted(final(w)) || final(w).inner is Closed),
+        final(w).files@.len() == old(w).files@.len(),
+        forall|i: int| 0 <= i < old(w).files@.len() - 1 ==> final(w).files@[i] == old(w).files@[i],
+        final(w).writing_to_file == old(w).writing_to_file && final(w).writing_to_extra_field == old(w).writing_to_extra_field
+            && final(w).writing_to_central_extra_field_only == old(w).writing_to_central_extra_field_only
+            && final(w).writing_raw == old(w).writing_raw && final(w).comment == old(w).comment,
+        !old(w).writing_to_file || old(w).inner is Closed ==> r is Err,
+        // extra-data mode: everything is collected verbatim, nothing else moves
+        old(w).writing_to_file && old(w).writing_to_extra_field && !(old(w).inner is Closed) ==> r is Ok
+            && final(w).files@.last().extra_field@ == old(w).files@.last().extra_field@ + buf@
+            && final(w).files@.last().data_start == old(w).files@.last().data_start
+            && final(w).files@.last().header_start == old(w).files@.last().header_start
+            && final(w).files@.last().large_file == old(w).files@.last().large_file
+            && final(w).inner == old(w).inner && final(w).stats == old(w).stats,
+        // data mode: entries untouched; on success the whole buffer was accounted
+        !old(w).writing_to_extra_field ==> final(w).files@ == old(w).files@,
+        r is Ok && !old(w).writing_to_extra_field ==> final(w).stats.hasher@ == old(w).stats.hasher@ + buf@
+            && final(w).stats.bytes_written == old(w).stats.bytes_written + buf@.len(),
+{ unimplemented!() }
+#[verifier::external_body]
+fn shim_zw_write_u16<W: Write + io::Seek>(w: &mut ZipWriter<W>, v: u16) -> (r: io::Result<()>)
+    requires zw_ready(old(w)),
+    ensures
+        zw_wf(final(w)) && (zw_room(final(w)) || zw_faulted(final(w)) || final(w).inner is Closed),
+        final(w).files@.len() == old(w).files@.len(),
+        final(w).writing_to_file == old(w).writing_to_file && final(w).writing_to_extra_field == old(w).writing_to_extra_field
+            && final(w).writing_to_central_extra_field_only == old(w).writing_to_central_extra_field_only
+            && final(w).writing_raw == old(w).writing_raw && final(w).comment == old(w).comment,
+        old(w).writing_to_file && old(w).writing_to_extra_field && !(old(w).inner is Closed) ==> r is Ok
+            && final(w).files@.last().extra_field@ == old(w).files@.last().extra_field@ + le16(v)
+            && final(w).files@.last().data_start == old(w).files@.last().data_start
+            && final(w).files@.last().header_start == old(w).files@.last().header_start
+            && final(w).files@.last().large_file == old(w).files@.last().large_file
+            && final(w).inner == old(w).inner && final(w).stats == old(w).stats,
+{ unimplemented!() }
 // T7x in start_entry: `zipwriter.write_all(&crypto_header)` on the buffering ZipCryptoWriter.
 // ASSUMED: write_all is repeated write; ZipCryptoWriter::write (proved in U7a/U10) accepts everything at once.
 #[verifier::external_body]
